@@ -394,7 +394,6 @@ func extErrorsJoin(fr *frame, a []value) value {
 
 var _ = ssa.NewProgram
 
-
 func hasSymbolicString(args []value) bool {
 	for _, a := range args {
 		if f, ok := a.(iface); ok {
